@@ -65,6 +65,16 @@ def fold(node, env=None):
             raise
         except Exception as e:
             raise NotConstant(str(e))
+    if isinstance(node, ast.Call) and isinstance(node.func, ast.Name) and node.func.id in ('frozenset', 'set', 'tuple', 'list') \
+            and node.func.id not in env and len(node.args) == 1 and not node.keywords and not isinstance(node.args[0], ast.Starred):
+        # frozenset({..}) / set([..]) / tuple([..]) of a literal collection: the collection (sets are folded to set)
+        inner = fold(node.args[0], env)
+        if isinstance(inner, (list, tuple, set, frozenset, dict)):
+            try:
+                return {'frozenset': set, 'set': set, 'tuple': tuple, 'list': list}[node.func.id](inner)
+            except TypeError as e:
+                raise NotConstant(str(e))
+        raise NotConstant('call')
     if isinstance(node, ast.Compare):
         left = fold(node.left, env)
         for op, comp in zip(node.ops, node.comparators):
